@@ -3,6 +3,10 @@ import TLVerif.Syntaxtl2.Basic
 `strings.ReplaceAll(s, "\t", tabSpaces)`, `strings.IndexAny(s, "\r\n")`, decimal / `%08x` formatting, `strconv.ParseUint`. -/
 namespace TLVerif.Syntaxtl2
 
+/-- Go slice expression `s[lo:hi]` (run-time panic when out of range). -/
+def slice (tx : Bytes) (lo hi : Nat) : Res Bytes :=
+  if lo ≤ hi ∧ hi ≤ tx.length then .ok ((tx.take hi).drop lo) else .panic
+
 def asciiSpace (c : UInt8) : Bool :=
   c.toNat == 9 || c.toNat == 10 || c.toNat == 11 || c.toNat == 12 || c.toNat == 13 || c.toNat == 32
 
